@@ -24,7 +24,7 @@ def _cmds_for(scn, by_sid, tier):
                 cmd = {"op": "de", "schema": schema, "bytes": b, "reader": rd}
                 if h != "default":
                     cmd["hints"] = h
-                if h == "alt":
+                if h in ("alt", "alt2"):
                     cmd["shape"] = scn["v"]
                 out.append((cmd, {"must": "ok", "value": (scn["anyv"] if h == "any" else scn["v"]), "consumed": len(b)},
                             kind if h == "default" else f"{kind}/{h}"))
